@@ -467,9 +467,10 @@ Definition ex_body : node :=
 
 Example C17_body_wf_nonvacuous : wf_body ex_lexq (nameok (b "ns") []) false ex_body.
 Proof.
-  cbn -[msg_raw_text rawtext_run go_quote print_node trim_space run_text run_pos split_dots].
+  cbn -[msg_raw_text rawtext_run go_quote print_node trim_space run_text run_pos split_dots c17_no_lead_minus].
   unfold key_ok, float_ok, quoted_ok, call_name_ok, nameok, plain, no_byte, run_ok.
   repeat match goal with
+         | |- c17_no_lead_minus _ => vm_compute; exact I
          | H : _ :: _ = [] |- _ => discriminate H
          | H : false = true |- _ => discriminate H
          | H : existsb _ _ = true |- _ => vm_compute in H; try discriminate H
@@ -579,7 +580,7 @@ Proof. vm_compute. split; [reflexivity | discriminate]. Qed.
    PARTIAL in the class:
    raw text that lexText reads as one piece whatever precedes it (lb17_one_piece: no comment opener "/*", no "//" at
    its start or behind white space; a single "/" is fine), print, {debugger}, {log}, {let} in both forms,
-   {if}/{elseif}/{else}, {for}/{ifempty} under lb17_anylast (lb17_anylast_no_minus: every list expression whose text does not start with "-"; after "in" it
+   {if}/{elseif}/{else}, {for}/{ifempty} with any list expression whose text does not start with "-" (c17_no_lead_minus, a clause of wf_body too; after "in" it
    is lexed with a term as the previous item), {switch} whose cases all have values (the default case prints as
    "{case }": W1), {css}, {call} with data="all" / data="e" / no attribute, without parameters ({call x.y/}) or with
    parameters of both forms ({param k: e/}, {param k}..{/param}); NOT {msg} / {plural} (the run accumulation of
@@ -747,7 +748,7 @@ Example C17_file_with_template_refuted :
     end.
 Proof. eexists. split; [vm_compute; reflexivity|]. vm_compute. exact I. Qed.
 
-(* the {for} clause of the class with a list expression that is not a variable: lb17_anylast from lb17_anylast_no_minus *)
+(* the {for} clause of the class with a list expression that is not a variable *)
 Definition ex_for_nodes : list node :=
   [NFor 0 (b "x") (NBin OSub 0 (NDataRef 0 (b "a") []) (NInt 0 1)) (NList 0 []) None].
 Example C17_for_list_expression_in_class :
@@ -759,9 +760,7 @@ Proof.
   { cbn. repeat split; try reflexivity; try exact I. }
   assert (Hlo : lex_ok (NBin OSub 0 (NDataRef 0 (b "a") []) (NInt 0 1))).
   { cbn. repeat split; try reflexivity; try exact I. }
-  apply lb17_ok_for; [reflexivity|exact Hwf|exact Hlo| |apply lb17_ok_nil].
-  apply lb17_anylast_no_minus; [exact Hwf|exact Hlo|].
-  intros se Hp. vm_compute in Hp. injection Hp as <-. exact I.
+  apply lb17_ok_for; [reflexivity|exact Hwf|exact Hlo|vm_compute; exact I|apply lb17_ok_nil].
 Qed.
 (* and W4 in the models: the printed text of {for $x in (-$a)} is read by the scanner model with the BINARY minus behind "in",
    and the model of parse.SoyFile refuses the items *)
